@@ -62,6 +62,9 @@ FileLoop:
 		}
 		name := f.GetName()
 		if idx, ok := fm.index[name]; !ok {
+			if f.GetInsertionPoint() != "" {
+				return fmt.Errorf("[%s] attended to insert at '%s' but target file '%s' is not found", src, f.GetInsertionPoint(), name)
+			}
 			fm.index[name] = len(fm.files)
 			fm.files = append(fm.files, f)
 		} else {
